@@ -10,6 +10,13 @@ COMMON_NOTE = ('Trusted base: z3 4.x/5.1 (python3-vt), the symx forking engine, 
                'reals), sizes beyond the stated bounds, GPU, complex dtypes. ')
 
 CHECKS = {
+ 'C16': dict(
+    text='The sequence of public API calls is a vector of solver variables; the symbolic executor explores every sequence up to the length bound over a small universe designed around name clashes, id re-use and ill-typed arguments, pruning at states already '
+         'explored at least as deeply. After every call the representation invariant is checked, a call that raised must leave every public observation unchanged, and copies must be equal, observation-equal (label tables, domains, factors) and independent. '
+         'Right level: the property quantifies over call histories; bounded exhaustive exploration with state merging covers every short history, which is where validation-order bugs live.',
+    note='Bounds: sequences of <=3 (quick) / <=4 (thorough) calls on Graph and one more on HRG/FGG; universe: labels L,M; node ids a,(b),implicit; edge labels f:(L), f:(M), g:(L,L), X:(L), X:(M), c:(); <=3 nodes, <=2 edges, <=3 rules; 7 rule shapes. '
+         'Not covered: remove/new convenience wrappers beyond those listed, longer histories, == transitivity on triples.',
+    technique='bounded symbolic execution over API call sequences (z3 path forking), invariant + frame checks', design='5/C16'),
  'C05': dict(
     text='factorize_rule / factorize_hrg / factorize_fgg run on grammars with large right-hand sides; on every path the structural obligations are checked (requested method reaches tree_decomposition, fresh distinct names, no rule widened, '
          'inlining the fresh nonterminals reproduces the original rule with every edge exactly once and nodes shared only through externals) and the solver decides that sum_product of the factorized FGG equals that of the original for all factor weights, per cell. '
